@@ -157,7 +157,7 @@ func extract(f *ast.File, sn int, out map[obsT]bool) (notes []string) {
 			if d.Type.Params != nil && len(d.Type.Params.List) > 0 && len(d.Type.Params.List[0].Names) > 0 {
 				m = trailingInt(d.Type.Params.List[0].Names[0].Name)
 			}
-			if d.Name.Name == "init" || strings.HasSuffix(d.Name.Name, "_init") {
+			if d.Recv == nil && (d.Name.Name == "init" || strings.HasSuffix(d.Name.Name, "_init")) {
 				// init has no parameter to carry the marker: its signature is its own
 				m = firstIntOrZero(d.Body)
 			}
